@@ -1,5 +1,64 @@
-(* placeholder until NextProofs lands *)
-From Pcfg Require Import ProbAlg F64.
-Theorem C01_F64_laws_available : forall a b : P F64, okb a = true -> okb b = true -> ple a b = true \/ ple b a = true.
-Proof. exact (ple_total F64). Qed.
-Print Assumptions C01_F64_laws_available.
+(* C01 - pre-terminals are emitted in non-increasing probability order and the
+   reported probability is the left-to-right product.  Property theorems only. *)
+From Coq Require Import List Bool Sorting.Permutation Floats.
+From Pcfg Require Import ProbAlg F64 Next NextSpec NextProofs NextFacts.
+
+(* every prefix of the run, every probability algebra, every queue meeting the
+   heap contract on ok values; the second part is the frontier invariant *)
+Theorem C01_sorted_every_prefix :
+  forall (A : palg) (rs : ruleset A), wf rs ->
+  forall pop n, pop_ok_okb pop ->
+    nonincreasing (rev (emitted (run pop rs n (start rs)))) /\
+    (forall e q, In e (emitted (run pop rs n (start rs))) ->
+                 In q (pending (run pop rs n (start rs))) -> ple (iprob q) (iprob e) = true).
+Proof. exact (fun A rs H pop n => C01_sorted_okb rs H pop n). Qed.
+
+Theorem C01_prob_is_product :
+  forall (A : palg) (rs : ruleset A), wf rs ->
+  forall pop n it, pop_ok_okb pop ->
+    In it (emitted (run pop rs n (start rs)) ++ pending (run pop rs n (start rs))) ->
+    iprob it = find_prob rs (ipt it) (ibase it) /\ In it (all_preterminals rs).
+Proof. exact (fun A rs H pop n it => C01_prob_is_product_okb rs H pop n it). Qed.
+
+Theorem C01_child_never_more_probable :
+  forall (A : palg) (rs : ruleset A), wf rs ->
+  forall it pos v i, In it (all_preterminals rs) -> nth_error (ipt it) pos = Some (v, i) ->
+    S i < length (groups rs v) ->
+    ple (find_prob rs (upd (ipt it) pos S) (ibase it)) (find_prob rs (ipt it) (ibase it)) = true /\
+    okb (find_prob rs (upd (ipt it) pos S) (ibase it)) = true /\
+    okb (find_prob rs (ipt it) (ibase it)) = true.
+Proof. exact (fun A rs H it pos v i => find_prob_child_le rs H it pos v i). Qed.
+
+(* the emitted set does not depend on how the heap breaks ties *)
+Theorem C01_order_independent_of_queue :
+  forall (A : palg) (rs : ruleset A) pop1 pop2, wf rs -> pop_ok_okb pop1 -> pop_ok_okb pop2 ->
+  Permutation (emitted (run pop1 rs (total rs) (start rs))) (emitted (run pop2 rs (total rs) (start rs))).
+Proof. exact (fun A rs p1 p2 => queue_independent rs p1 p2). Qed.
+
+(* the queue the correspondence runs meets the contract *)
+Theorem C01_model_queue_meets_contract : forall A : palg, pop_ok_okb (@pop_first_max A).
+Proof. exact (fun A => @pop_first_max_ok_partial A). Qed.
+
+(* binary64: the laws hold for IEEE doubles including ties, subnormals, zero;
+   Python's < and == on such values are the algebra's plt / peq; and the
+   boolean well-formedness test run on every generated case implies wf *)
+Theorem C01_binary64 :
+  forall rs : ruleset F64, wfb rs = true ->
+  forall n, nonincreasing (rev (emitted (run pop_first_max rs n (start rs)))).
+Proof.
+  exact (fun rs H n => proj1 (C01_sorted_okb rs (wfb_wf rs H) pop_first_max n (@pop_first_max_ok_partial F64))).
+Qed.
+
+Theorem C01_python_lt_is_plt : forall a b : float, okbF a = true -> okbF b = true -> PrimFloat.ltb a b = @plt F64 a b.
+Proof. exact plt_F64. Qed.
+Theorem C01_python_eq_is_peq : forall a b : float, okbF a = true -> okbF b = true -> PrimFloat.eqb a b = @peq F64 a b.
+Proof. exact peq_F64. Qed.
+
+(* non-vacuity *)
+Theorem C01_hypotheses_satisfiable : wf demo_rs /\ total demo_rs = 44.
+Proof. exact (conj demo_wf demo_total). Qed.
+
+Print Assumptions C01_sorted_every_prefix.
+Print Assumptions C01_prob_is_product.
+Print Assumptions C01_binary64.
+Print Assumptions C01_python_lt_is_plt.
